@@ -39,6 +39,19 @@ let run_case (fuel : nat) (c : Sexp.t) : (string * Sexp.t * Sexp.t option) optio
         | Panic -> model_only (A "panic")
         | OutOfFuel -> model_only (A "fuel"))
      | r -> model_only (sexp_of_res (sexp_of_opt sexp_of_ss) r))
+  | L [A "resolve"; A f; t; ss] ->
+    let t = term_of t and ss = ss_of ss in
+    let opt r = sexp_of_res (sexp_of_opt sexp_of_term) r in
+    let b r = sexp_of_res (fun x -> A (if x then "1" else "0")) r in
+    (match f with
+     | "is-bound" -> model_only (b (is_bound t ss))
+     | "get-binding" -> model_only (opt (get_binding t ss))
+     | "is-ground-variable" -> model_only (b (is_ground_variable fuel t ss))
+     | "get-ground-term" -> model_only (opt (get_ground_term fuel t ss))
+     | "get-complex" -> model_only (opt (get_complex fuel t ss))
+     | "get-list" -> model_only (opt (get_list fuel t ss))
+     | "get-constant" -> model_only (opt (get_constant fuel t ss))
+     | _ -> None)
   | L [A "replace"; t; ss] ->
     model_only (sexp_of_res sexp_of_term (replace_variables fuel (term_of t) (ss_of ss)))
   | L [A "bip"; A name; ts; ss] ->
